@@ -381,3 +381,36 @@ def rule_unlimited_size_per_variable(ctx):
                              "in an HDF file the variable gets the record count of the longest variable in the file")
     ctx.floor("UNLIMSIZE", 3, n, "(substitutions of a variable's unlimited extent)")
     return n
+
+
+def rule_presize_condition(ctx):
+    """SETLEN (C03): in no-fill mode the data element of a fixed-size data set is given its full length before the first write
+    (`set_length`), so that a first write anywhere inside the array can seek to its place.  Whether that is still to be done
+    is a fact about the file — the data set has no data element yet (`data_ref == 0`) — and not about the session: `created`
+    is only set by SDcreate in the creating session.  The test guarding `set_length = TRUE` must therefore look at data_ref."""
+    from .codec import ast_walk, ast_exprs
+    prog = ctx.prog
+    n = 0
+    for f in prog.lib_funcs():
+        if not f.rel.endswith("mfsd.c"):
+            continue
+        found = []
+
+        def vis(nn, st):
+            if nn[0] == "s":
+                for x in walk(nn[1], True):
+                    if x[0] == "asg" and x[1] == "=" and (mem_field(x[2]) or (0, 0))[1] == "set_length" and not is_int(x[3], 0):
+                        outer = [a for a in st if a[0] == "if"]
+                        found.append((x, outer))
+            return True
+        ast_walk(f.raw.get("ast"), vis)
+        for x, outer in found:
+            n += 1
+            key = "SETLEN:%s" % f.name
+            if any(any(y[0] == "mem" and y[2] == "data_ref" for y in walk(a[1], True)) for a in outer):
+                ctx.holds("SETLEN", key, f.where(x[4]), "pre-sizing is decided by `data_ref` (no data element yet), not only by the per-session flag", nontrivial=True)
+            else:
+                ctx.violated("SETLEN", key, f.where(x[4]), "`set_length = TRUE` is guarded only by %s: a data set that was created in an earlier session and has no data yet is never pre-sized, "
+                             "and a first no-fill write that does not start at the beginning fails" % (" && ".join(render(a[1])[:40] for a in outer) or "nothing"))
+    ctx.floor("SETLEN", 1, n, "(stores of set_length = TRUE)")
+    return n
